@@ -240,10 +240,13 @@ func (m *machine) formatScalar(spec string, verb byte, flags string, v value, t 
 func (m *machine) sscanf(args []value, pos token.Pos) value {
 	s, ok1 := args[0].(string)
 	f, ok2 := args[1].(string)
+	rest := args[2].(slc)
+	if !ok1 && ok2 && f == "%d" && rest.ln == 1 {
+		return m.sscanfD(strBytes(args[0]), (*rest.arr)[rest.off].(iface), pos)
+	}
 	if !ok1 || !ok2 {
 		panic(abortPath{"unsupported:Sscanf on symbolic text"})
 	}
-	rest := args[2].(slc)
 	// only formats consisting of %d verbs and literals
 	var ptrs []*value
 	var host []interface{}
@@ -273,3 +276,48 @@ func (m *machine) sscanf(args []value, pos token.Pos) value {
 }
 
 var _ = strconv.Itoa
+
+// sscanfD models fmt.Sscanf(s, "%d", &x) on text with symbolic bytes: leading spaces, optional sign, decimal digits.
+func (m *machine) sscanfD(bs []iv, dst iface, pos token.Pos) value {
+	p, ok := dst.v.(*value)
+	if !ok || p == nil {
+		panic(abortPath{"unsupported:Sscanf operand"})
+	}
+	old, isInt := (*p).(iv)
+	if !isInt {
+		panic(abortPath{"unsupported:Sscanf non-integer operand"})
+	}
+	tt := m.tt
+	is := func(b iv, c byte) bool { return m.decide(m.eqValue(b, iv{w: 8, c: uint64(c)})) }
+	i := 0
+	for i < len(bs) && (is(bs[i], ' ') || is(bs[i], '\t') || is(bs[i], '\n') || is(bs[i], '\r')) {
+		i++
+	}
+	neg := false
+	if i < len(bs) && is(bs[i], '-') {
+		neg = true
+		i++
+	} else if i < len(bs) && is(bs[i], '+') {
+		i++
+	}
+	acc := tt.bvc(64, 0)
+	digits := 0
+	for ; i < len(bs) && digits < 18; i++ {
+		b := bs[i]
+		isD := m.mkBool(tt.and(tt.bvcmp("bvuge", m.ivT(b), tt.bvc(8, '0')), tt.bvcmp("bvule", m.ivT(b), tt.bvc(8, '9'))))
+		if !m.decide(isD) {
+			break
+		}
+		d := tt.zext(56, tt.bvbin("bvsub", m.ivT(b), tt.bvc(8, '0')))
+		acc = tt.bvbin("bvadd", tt.bvbin("bvmul", acc, tt.bvc(64, 10)), d)
+		digits++
+	}
+	if digits == 0 {
+		return tup{mkInt(0), m.mkError("expected integer")}
+	}
+	if neg {
+		acc = tt.bvun("bvneg", acc)
+	}
+	m.store(p, m.convInt(m.mkIv(64, true, acc), old.w, old.sg))
+	return tup{mkInt(1), iface{}}
+}
